@@ -545,9 +545,34 @@ class Inliner:
             if dl is None or dl["p"] or dl["l"] in tainted or len(defs.get(dl["l"], [])) != 1:
                 continue
             rv = defs[dl["l"]][0]
-            if "discr" not in rv or not isinstance(rv["discr"], dict) or rv["discr"].get("p"):
+            if "discr" not in rv or not isinstance(rv["discr"], dict):
                 continue
-            v = variant_of(rv["discr"]["l"])
+            subject = rv["discr"]["l"]
+            if rv["discr"].get("p") == ["*"]:
+                # `match *r` / `match r` with r = &x: the shared reference of a value built in this body
+                target = None
+                for _ in range(8):      # the reference itself may be handed on or reborrowed (`for_error(&error)`, `&*r`)
+                    if subject in tainted or len(defs.get(subject, [])) != 1:
+                        break
+                    d0 = defs[subject][0]
+                    if "use" in d0:
+                        src = d0["use"].get("move") or d0["use"].get("copy")
+                        if src is None or src["p"]:
+                            break
+                        subject = src["l"]
+                    elif "ref" in d0 and not d0.get("mut") and d0["ref"]["p"] == ["*"]:
+                        subject = d0["ref"]["l"]
+                    elif "ref" in d0 and not d0.get("mut") and not d0["ref"]["p"]:
+                        target = d0["ref"]["l"]
+                        break
+                    else:
+                        break
+                if target is None:
+                    continue
+                subject = target
+            elif rv["discr"].get("p"):
+                continue
+            v = variant_of(subject)
             if v is None:
                 continue
             vidx, n = v
@@ -720,7 +745,11 @@ class Inliner:
                                     touched = changed = True
                     i += 1
                 if touched:
-                    self._fold_const_switches(body)
+                    for _ in range(6):      # a decided match can decide the next one (`for_error(&e)` then `if let Some(reason)`)
+                        n_ = self._fold_const_switches(body)
+                        self._blank_unreachable(body)
+                        if not n_:
+                            break
                     self._thread_known_variants(body)
                     self._blank_unreachable(body)
             if not changed:
